@@ -8,10 +8,9 @@ Check C14_stats_totals : forall flt gs,
   s_size (stats_of flt gs) = fold_right (fun g a => glen g * N.of_nat (length (gfiles g)) + a) 0 gs /\
   s_mis_files (stats_of flt gs) = fold_right (fun g a => missing_count g flt + a) 0 gs /\
   s_mis_size (stats_of flt gs) = fold_right (fun g a => glen g * missing_count g flt + a) 0 gs.
-Check C14_stats_redundant_except_K8 : forall flt gs, Forall (fun g => ~ K8_class g flt) gs ->
+Check C14_stats_redundant : forall flt gs,
   s_red_files (stats_of flt gs) = fold_right (fun g a => redundant_spec g flt + a) 0 gs /\
   s_red_size (stats_of flt gs) = fold_right (fun g a => glen g * redundant_spec g flt + a) 0 gs.
-Check C14_K8_witness : K8_class k8_group k8_filter /\ redundant_count k8_group k8_filter = 2 /\ redundant_spec k8_group k8_filter = 1.
 Check C14_missing : forall g flt rf, repl flt = Under rf ->
   missing_count g flt = rf - subgroup_count g flt /\ (matches_strictly g flt = true <-> 0 < missing_count g flt).
 Check C14_reported_iff_redundant : forall g flt rf, repl flt = Over rf -> 1 <= rf ->
